@@ -102,6 +102,14 @@ static std::vector<Task> build_tasks(vf::Ctx& ctx)
         auto ops = std::make_shared<Spectra::SparseSymMatProd<T>>(*S);
         tasks.push_back(shared_task<Spectra::DenseSymMatProd<T>, Spectra::SymEigsSolver>("SymEigsSolver<DenseSymMatProd>", A, opd, 3, 9, SortRule::LargestAlge, 50));
         tasks.push_back(shared_task<Spectra::SparseSymMatProd<T>, Spectra::SymEigsSolver>("SymEigsSolver<SparseSymMatProd>", S, ops, 2, 8, SortRule::BothEnds, 50));
+        // the complex Hermitian product wrappers, shared in the same way
+        using CT = std::complex<T>;
+        auto AH = std::make_shared<Eigen::MatrixXcd>(vg::herm_matrix(r, n, v == 0 ? 0 : 2, 1.0));
+        auto SH = std::make_shared<Eigen::SparseMatrix<CT>>(AH->sparseView());
+        auto ophd = std::make_shared<Spectra::DenseHermMatProd<CT>>(*AH);
+        auto ophs = std::make_shared<Spectra::SparseHermMatProd<CT>>(*SH);
+        tasks.push_back(shared_task<Spectra::DenseHermMatProd<CT>, Spectra::HermEigsSolver>("HermEigsSolver<DenseHermMatProd>", AH, ophd, 3, 9, SortRule::LargestMagn, 50));
+        tasks.push_back(shared_task<Spectra::SparseHermMatProd<CT>, Spectra::HermEigsSolver>("HermEigsSolver<SparseHermMatProd>", SH, ophs, 2, 8, SortRule::SmallestAlge, 50));
     }
 #elif ZOO_GROUP == 1
     for (int v = 0; v < 2; v++)
